@@ -2,12 +2,12 @@
 Dataset/Datagroup/Vector classes with token Arrays; the selection mask is compared semantically (polynomial atoms)."""
 from __future__ import annotations
 
-from ..models import ModelEval, PyObj, Marker, Raised, fold
+from ..models import ModelEval, PyObj, Marker, Raised
 from ..peval import Unsupported, ProgramRaised
 from ..poly import Poly, Fn
 from ..source import AnalysisError
-from .core_models import RawTok, ArrTok, OpTok, core_hooks, make_vector, vector_components, VECTOR_Q
-from .core_folds import DG_Q, DS_Q, call_method, new_group, _ev
+from .core_models import RawTok, ArrTok, OpTok, core_hooks, make_vector, vector_components
+from .core_folds import DS_Q, call_method, new_group, _ev
 
 ERR = (Unsupported, AnalysisError)
 FUNCS = {"sphere": "spatial/subdomain.py::extract_sphere", "box": "spatial/subdomain.py::extract_box"}
@@ -110,25 +110,6 @@ def strip_common_unit(p):
     return p
 
 
-def _old_strip_common_unit(p):
-    """a polynomial all of whose terms carry the same single 1/unit factor compares with 0 like the polynomial without it"""
-    units = None
-    for mono in p.t:
-        us = tuple(sorted((s_, e) for s_, e in mono if isinstance(s_, tuple) and s_ and s_[0] == "per"))
-        if units is None:
-            units = us
-        elif us != units:
-            return p
-    if not units or len(units) != 1 or units[0][1] != 1:
-        return p
-    out = Poly()
-    for mono, c in p.t.items():
-        term = Poly.const(c)
-        for s_, e in mono:
-            if not (isinstance(s_, tuple) and s_ and s_[0] == "per"):
-                term = term * (Poly.sym(s_) ** e)
-        out = out + term
-    return out
 
 
 def _atom(kind, a, b):
